@@ -276,6 +276,17 @@ Proof.
   - exact (i_used _ _ V).
 Qed.
 
+Lemma CInv_upd_stop c gm sid t b :
+  CInv c gm -> find_strm sid (c_streams c) = Some t ->
+  CInv (with_streams c (upd_strm sid (set_stop b) (c_streams c))) gm.
+Proof.
+  intros V Hf. unfold with_streams.
+  apply (CInv_upd c gm sid (set_stop b) t (c_used c) V Hf); try (intros; reflexivity).
+  - pose proof (i_streams _ _ V) as F. rewrite Forall_forall in F. exact (F t (find_in _ _ _ Hf)).
+  - cbn [set_stop t_send]. lia.
+  - exact (i_used _ _ V).
+Qed.
+
 (* ---------- stream creation ---------- *)
 Lemma BL_not_in c l uni blk sid : BL c l uni blk -> find_strm sid l = None -> ~ In sid blk.
 Proof. intros (_ & H) Hn Hin. destruct (H sid Hin) as (_ & _ & t & Ft & _). congruence. Qed.
@@ -300,7 +311,7 @@ Proof.
   set (msd := if sid_uni sid then c_msd_uni c else c_msd_br c).
   set (maxs := if sid_uni sid then c_ms_uni c else c_ms_bidi c).
   set (blocked := sid / 4 >=? maxs).
-  set (t := mkStrm sid blocked msd (send_init true)).
+  set (t := mkStrm sid blocked msd (send_init true) false).
   set (c1 := mkConn _ _ _ _ _ _ _ _ _ _ _).
   assert (S : sc_le c c1) by (unfold sc_le, c1; cbn [c_client c_msd_bl c_msd_br c_msd_uni c_ms_bidi c_ms_uni]; repeat split; try reflexivity; lia).
   assert (Hmsd : 0 <= msd) by (pose proof (i_br _ _ V); pose proof (i_uni _ _ V); unfold msd; destruct (sid_uni sid); lia).
@@ -342,7 +353,7 @@ Proof.
   destruct (Bool.eqb (sid_client sid) (c_client c)) eqn:El; [discriminate|].
   assert (Hloc : is_local c sid = false) by exact El.
   intros H; inversion H; subst c1 t; clear H.
-  set (t := mkStrm sid false (if sid_uni sid then 0 else c_msd_bl c) (send_init (negb (sid_uni sid)))).
+  set (t := mkStrm sid false (if sid_uni sid then 0 else c_msd_bl c) (send_init (negb (sid_uni sid))) false).
   assert (Hfind : find_strm sid (c_streams c ++ [t]) = Some t).
   { rewrite (find_app_none _ _ _ Ef). cbn [t_id t]. assert (E : sid =? sid = true) by lia. rewrite E. reflexivity. }
   split; [|exact Hfind]. unfold with_streams.
@@ -444,7 +455,7 @@ Ltac sc_solve := unfold sc_le; cbn [c_client c_msd_bl c_msd_br c_msd_uni c_ms_bi
 
 Lemma step_inv c gm op : CInv c gm -> pguard c op -> CInv (snd (fstep c op)) (gstep gm op).
 Proof.
-  intros V G. destruct op as [sid d f|sid code|sid|v|sid v|uni v|md bl br un sb su| |sid ms|sid|sid k a b f|sid k|sid];
+  intros V G. destruct op as [sid d f|sid code|sid|v|sid v|uni v|md bl br un sb su| |sid ms|sid|sid k a b f|sid k|sid|sid|sid|sid k];
     cbn [fstep]; try (change (gstep gm _) with gm).
   - (* send_stream_data *)
     destruct (for_send c sid) as [[c1 t]|] eqn:E; [|exact V]. destruct (for_send_inv _ _ _ _ _ V E) as (V1 & F1).
@@ -503,7 +514,7 @@ Proof.
     + lia.
   - (* _write_reset_stream_frame *)
     destruct (find_strm sid (c_streams c)) as [t|] eqn:Ef; [|exact V].
-    destruct (negb (s_reset_pending (t_send t))); [exact V|].
+    destruct (negb (s_reset_pending (t_send t)) || t_blocked t); [exact V|].
     cbn [get_reset_frame snd]. apply (CInv_upd_send c gm sid t _ V Ef). reflexivity.
   - (* STREAM delivery outcome *)
     destruct (find_strm sid (c_streams c)) as [t|] eqn:Ef; [|exact V].
@@ -515,6 +526,15 @@ Proof.
     replace s' with (snd (on_reset_delivery (t_send t) k)) by (rewrite Ew; reflexivity). apply reset_deliv_highest.
   - (* peer opens a stream *)
     destruct (from_peer c sid) as [[c1 t]|] eqn:E; [|exact V]. exact (proj1 (from_peer_inv _ _ _ _ _ V E)).
+  - (* stop_stream *)
+    destruct (negb (can_receive c sid)); [exact V|].
+    destruct (find_strm sid (c_streams c)) as [t|] eqn:Ef; [|exact V]. cbn [snd]. exact (CInv_upd_stop _ _ _ _ _ V Ef).
+  - (* _write_stop_sending_frame *)
+    destruct (find_strm sid (c_streams c)) as [t|] eqn:Ef; [|exact V].
+    destruct (negb (t_stop t) || t_blocked t); [exact V|]. cbn [snd]. exact (CInv_upd_stop _ _ _ _ _ V Ef).
+  - (* STOP_SENDING delivery outcome *)
+    destruct (find_strm sid (c_streams c)) as [t|] eqn:Ef; [|exact V]. cbn [snd].
+    destruct k; [exact V|exact (CInv_upd_stop _ _ _ _ _ V Ef)].
 Qed.
 
 Lemma freach_inv c gm : freach c gm -> CInv c gm.
@@ -587,7 +607,7 @@ Qed.
 Lemma used_tracks_highest c op :
   c_used (snd (fstep c op)) - c_used c = sum_high (c_streams (snd (fstep c op))) - sum_high (c_streams c).
 Proof.
-  destruct op as [sid d f|sid code|sid|v|sid v|uni v|md bl br un sb su| |sid ms|sid|sid k a b f|sid k|sid]; cbn [fstep].
+  destruct op as [sid d f|sid code|sid|v|sid v|uni v|md bl br un sb su| |sid ms|sid|sid k a b f|sid k|sid|sid|sid|sid k]; cbn [fstep].
   - destruct (for_send c sid) as [[c1 t]|] eqn:E; [|cbn [snd]; lia]. destruct (for_send_sum _ _ _ _ E) as (A & B & F1).
     destruct (write (t_send t) d f) as [o s'] eqn:Ew. cbn [snd].
     assert (Hh : s_highest s' = s_highest (t_send t)) by (replace s' with (snd (write (t_send t) d f)) by (rewrite Ew; reflexivity); apply write_highest).
@@ -617,7 +637,7 @@ Proof.
     destruct (get_frame (t_send t) ms (Some (max_offset c t))) as [o s'] eqn:Ew. cbn [snd c_used c_streams].
     rewrite (sum_upd _ _ _ _ Ef). cbn [set_send t_send]. lia.
   - destruct (find_strm sid (c_streams c)) as [t|] eqn:Ef; [|cbn [snd]; lia].
-    destruct (negb (s_reset_pending (t_send t))); [cbn [snd]; lia|]. cbn [get_reset_frame snd].
+    destruct (negb (s_reset_pending (t_send t)) || t_blocked t); [cbn [snd]; lia|]. cbn [get_reset_frame snd].
     match goal with |- context [upd_send c sid ?s] => destruct (upd_send_sum c sid t s Ef eq_refl) end. lia.
   - destruct (find_strm sid (c_streams c)) as [t|] eqn:Ef; [|cbn [snd]; lia].
     destruct (on_data_delivery (t_send t) k a b f) as [o s'] eqn:Ew. cbn [snd].
@@ -628,6 +648,14 @@ Proof.
     assert (Hh : s_highest s' = s_highest (t_send t)) by (replace s' with (snd (on_reset_delivery (t_send t) k)) by (rewrite Ew; reflexivity); apply reset_deliv_highest).
     destruct (upd_send_sum c sid t s' Ef Hh). lia.
   - destruct (from_peer c sid) as [[c1 t]|] eqn:E; [|cbn [snd]; lia]. destruct (from_peer_sum _ _ _ _ E) as (A & B & F1). cbn [snd]. lia.
+  - destruct (negb (can_receive c sid)); [cbn [snd]; lia|].
+    destruct (find_strm sid (c_streams c)) as [t|] eqn:Ef; cbn [snd with_streams c_used c_streams]; [|lia].
+    rewrite sum_upd_same by reflexivity. lia.
+  - destruct (find_strm sid (c_streams c)) as [t|] eqn:Ef; [|cbn [snd]; lia].
+    destruct (negb (t_stop t) || t_blocked t); cbn [snd with_streams c_used c_streams]; [lia|].
+    rewrite sum_upd_same by reflexivity. lia.
+  - destruct (find_strm sid (c_streams c)) as [t|] eqn:Ef; [|cbn [snd]; lia]. cbn [snd].
+    destruct k; cbn [with_streams c_used c_streams]; [lia|]. rewrite sum_upd_same by reflexivity. lia.
 Qed.
 
 (* only _write_stream_frame changes `used`, and by exactly the rise of that stream's highest_offset *)
@@ -635,7 +663,7 @@ Lemma used_changes_only_in_get c op : c_used (snd (fstep c op)) <> c_used c ->
   exists sid ms t, op = OGet sid ms /\ find_strm sid (c_streams c) = Some t /\
     c_used (snd (fstep c op)) = c_used c + (s_highest (snd (get_frame (t_send t) ms (Some (max_offset c t)))) - s_highest (t_send t)).
 Proof.
-  intros Hne. destruct op as [sid d f|sid code|sid|v|sid v|uni v|md bl br un sb su| |sid ms|sid|sid k a b f|sid k|sid].
+  intros Hne. destruct op as [sid d f|sid code|sid|v|sid v|uni v|md bl br un sb su| |sid ms|sid|sid k a b f|sid k|sid|sid|sid|sid k].
   all: try (match goal with |- exists _ _ _, OGet _ _ = _ /\ _ => fail 1 | _ => exfalso; apply Hne; cbn [fstep] end).
   - destruct (for_send c sid) as [[c1 t]|] eqn:E; [|reflexivity]. destruct (for_send_sum _ _ _ _ E) as (A & B & F1).
     destruct (write (t_send t) d f) as [o s']. cbn [snd upd_send with_streams c_used]. exact B.
@@ -660,12 +688,15 @@ Proof.
     exists sid, ms, t. split; [reflexivity|]. split; [exact Ef|].
     destruct (get_frame (t_send t) ms (Some (max_offset c t))) as [o s']. reflexivity.
   - destruct (find_strm sid (c_streams c)) as [t|] eqn:Ef; [|reflexivity].
-    destruct (negb (s_reset_pending (t_send t))); reflexivity.
+    destruct (negb (s_reset_pending (t_send t)) || t_blocked t); reflexivity.
   - destruct (find_strm sid (c_streams c)) as [t|] eqn:Ef; [|reflexivity].
     destruct (on_data_delivery (t_send t) k a b f) as [o s']. reflexivity.
   - destruct (find_strm sid (c_streams c)) as [t|] eqn:Ef; [|reflexivity].
     destruct (on_reset_delivery (t_send t) k) as [o s']. reflexivity.
   - destruct (from_peer c sid) as [[c1 t]|] eqn:E; [|reflexivity]. destruct (from_peer_sum _ _ _ _ E) as (A & B & F1). exact B.
+  - destruct (negb (can_receive c sid)); [reflexivity|]. destruct (find_strm sid (c_streams c)); reflexivity.
+  - destruct (find_strm sid (c_streams c)) as [t|]; [|reflexivity]. destruct (negb (t_stop t) || t_blocked t); reflexivity.
+  - destruct (find_strm sid (c_streams c)) as [t|]; [|reflexivity]. destruct k; reflexivity.
 Qed.
 
 (* ---------- stream-count limit and RESET_STREAM ---------- *)
@@ -684,7 +715,7 @@ Lemma reset_within_limit c gm sid code fs c' :
   exists t, find_strm sid (c_streams c) = Some t /\ fs = s_highest (t_send t) /\ fs <= t_msdr t /\ t_msdr t <= granted c gm sid.
 Proof.
   intros R H. cbn [fstep] in H. destruct (find_strm sid (c_streams c)) as [t|] eqn:Ef; [|discriminate].
-  destruct (negb (s_reset_pending (t_send t))); [discriminate|]. cbn [get_reset_frame] in H. inversion H; subst.
+  destruct (negb (s_reset_pending (t_send t)) || t_blocked t); [discriminate|]. cbn [get_reset_frame] in H. inversion H; subst.
   exists t. destruct (stream_within_limit_l c gm t R (find_in _ _ _ Ef)) as (A & B). rewrite (find_id _ _ _ Ef) in B.
   split; [reflexivity|]. split; [reflexivity|]. split; [lia|exact B].
 Qed.
@@ -700,18 +731,30 @@ Proof.
   destruct G as (G1 & G2). apply IH; [apply freach_step; assumption|exact G2].
 Qed.
 
-(* C06-F2: reset_stream() on a stream blocked by the stream-count limit puts RESET_STREAM on the wire *)
-Definition ops_f2 : list fop :=
-  [OParams (Some 1000) (Some 100) (Some 100) (Some 100) (Some 1) (Some 1); OHandshakeDone; OReset 4 7].
+(* no STREAM, RESET_STREAM or STOP_SENDING frame is written for a locally initiated stream beyond the peer's
+   stream-count limit: each of the three write calls is refused by the loop (or the stream does not exist) *)
+Definition silent (o : fout) : Prop := o = FIneligible \/ o = FNoStream.
 
-Lemma reset_on_blocked_stream_witness :
-  exists c gm, freach c gm /\ is_local c 4 = true /\ ms_for c 4 <= 4 / 4 /\
-    fst (fstep c (OGetReset 4)) = FSender (SResetFrame (Some 7) 0).
+Lemma blocked_streams_silent_l c gm sid : freach c gm -> is_local c sid = true -> ms_for c sid <= sid / 4 ->
+  (forall ms, silent (fst (fstep c (OGet sid ms)))) /\ silent (fst (fstep c (OGetReset sid))) /\ silent (fst (fstep c (OGetStop sid))).
 Proof.
-  exists (frun (conn_init true) ops_f2), (grun (fun _ => 0) ops_f2). split.
-  - apply freach_run; [apply freach_init|]. cbv. repeat split; discriminate.
-  - vm_compute. repeat split; discriminate.
+  intros R Hl Hms. cbn [fstep]. destruct (find_strm sid (c_streams c)) as [t|] eqn:Ef.
+  2:{ repeat split; intros; right; reflexivity. }
+  pose proof (i_streams _ _ (freach_inv _ _ R)) as F. rewrite Forall_forall in F. destruct (F t (find_in _ _ _ Ef)) as (_ & _ & _ & D).
+  rewrite (find_id _ _ _ Ef) in D.
+  assert (Hb : t_blocked t = true) by (destruct (t_blocked t) eqn:E; [reflexivity|specialize (D Hl eq_refl); lia]).
+  rewrite Hb, !orb_true_r. cbn [orb]. repeat split; intros; left; reflexivity.
 Qed.
+
+(* the same three calls on the witness history of the former finding C06-F2 (reset_stream on a blocked stream) *)
+Definition ops_f2 : list fop :=
+  [OParams (Some 1000) (Some 100) (Some 100) (Some 100) (Some 1) (Some 1); OHandshakeDone; OSend 4 [1; 2] false; OReset 4 7; OStop 4].
+
+Example blocked_reset_example :
+  let c := frun (conn_init true) ops_f2 in
+  guards (conn_init true) ops_f2 /\ fst (fstep c (OGetReset 4)) = FIneligible /\ fst (fstep c (OGetStop 4)) = FIneligible /\
+  fst (fstep (snd (fstep c (OMaxStreams false 2))) (OGetReset 4)) = FSender (SResetFrame (Some 7) 0).
+Proof. split; [cbv; repeat split; discriminate|vm_compute; auto]. Qed.
 
 (* C06-F1: a stream created from remembered (0-RTT) parameters keeps the remembered limit when the handshake
    delivers a smaller one: highest_offset ends above everything the peer has granted for the stream *)
